@@ -136,25 +136,26 @@ func goid() uintptr {
 
 // Sched is one controlled run.
 type Sched struct {
-	mu          sync.Mutex
-	byG         map[uintptr]*party
-	order       []*party
-	parserOf    map[uintptr]uintptr
-	lexerOf     map[uintptr]uintptr
-	seq         map[uintptr]int
-	cancelled   map[uintptr]bool
-	buffered    map[uintptr]bool // a here-document wake-up is waiting in the channel
-	pending     int              // spawned goroutines that have not reached their first hook
-	choices     []int
-	sizes       []int // sizes of the choice sets met
-	nchoice     int
-	trace       []string
-	keepTrace   bool
-	changed     chan struct{}
-	main        uintptr // goroutine that called the entry point
-	exited      bool    // the entry point has passed its Exit hook
-	nevents     int     // hook calls so far
-	aliveAtExit []string
+	mu           sync.Mutex
+	byG          map[uintptr]*party
+	order        []*party
+	parserOf     map[uintptr]uintptr
+	lexerOf      map[uintptr]uintptr
+	seq          map[uintptr]int
+	cancelled    map[uintptr]bool
+	buffered     map[uintptr]bool // a here-document wake-up is waiting in the channel
+	pending      int              // spawned goroutines that have not reached their first hook
+	choices      []int
+	sizes        []int // sizes of the choice sets met
+	nchoice      int
+	trace        []string
+	keepTrace    bool
+	changed      chan struct{}
+	main         uintptr // goroutine that called the entry point
+	exited       bool    // the entry point has passed its Exit hook
+	nevents      int     // hook calls so far
+	aliveAtExit  []string
+	lateHandOver []string // tokens handed over by a lexer whose parser had already failed and cancelled it
 }
 
 // New returns a scheduler that follows the given choices (index into the set
@@ -365,6 +366,12 @@ func (s *Sched) hook(id uintptr, point int) {
 		s.signal()
 		s.mu.Unlock()
 		return
+	case EmitAfter:
+		if s.cancelled[id] {
+			// nobody in go.sh asks a cancelled lexer for a token: whoever took
+			// this one lets the lexer run on over input the parser never saw
+			s.lateHandOver = append(s.lateHandOver, fmt.Sprintf("L%d", s.seq[id]))
+		}
 	case EmitCancel:
 		// the select in emit had both the hand-over and the cancellation
 		// ready and took the cancellation: the parser that was counted as
@@ -392,11 +399,12 @@ func (s *Sched) hook(id uintptr, point int) {
 
 // Result of a controlled run.
 type Result struct {
-	AliveAtExit []string // goroutines of the call that had not exited when it was about to return
-	Drained     bool     // all of them exited afterwards
-	Deadlock    bool     // nobody could run before the call returned
-	Choices     []int    // sizes of the choice sets met (for enumerating schedules)
-	Trace       []string
+	AliveAtExit  []string // goroutines of the call that had not exited when it was about to return
+	Drained      bool     // all of them exited afterwards
+	Deadlock     bool     // nobody could run before the call returned
+	LateHandOver []string // lexers that handed a token over after they had been cancelled
+	Choices      []int    // sizes of the choice sets met (for enumerating schedules)
+	Trace        []string
 }
 
 // Run executes fn (which calls one go.sh entry point) under the scheduler
@@ -496,6 +504,7 @@ out:
 		s.trace = append(s.trace, fmt.Sprintf("STATE pending=%d", s.pending))
 	}
 	res.AliveAtExit = s.aliveAtExit
+	res.LateHandOver = s.lateHandOver
 	res.Choices = append([]int{}, s.sizes...)
 	res.Trace = s.trace
 	s.mu.Unlock()
